@@ -200,12 +200,6 @@ impl Litep2p {
             .build();
 
         let transport_handle = transport_manager.transport_manager_handle();
-        // add known addresses to `TransportManager`, if any exist
-        if !litep2p_config.known_addresses.is_empty() {
-            for (peer, addresses) in litep2p_config.known_addresses {
-                transport_manager.add_known_address(peer, addresses.iter().cloned());
-            }
-        }
 
         // start notification protocol event loops
         for (protocol, config) in litep2p_config.notification_protocols.into_iter() {
@@ -420,6 +414,14 @@ impl Litep2p {
 
             transport_manager
                 .register_transport(SupportedTransport::WebSocket, Box::new(transport));
+        }
+
+        // add known addresses to `TransportManager`, if any exist
+        //
+        // This is done after the transports have registered their listen addresses, so that the
+        // node's own listen addresses are filtered out like in later `add_known_address` calls.
+        for (peer, addresses) in std::mem::take(&mut litep2p_config.known_addresses) {
+            transport_manager.add_known_address(peer, addresses.iter().cloned());
         }
 
         // enable mdns if the config exists
